@@ -378,6 +378,36 @@ func init() {
 				}
 			}
 		}
+		// frames and messages with UNREGISTERED discriminators: the failing look-up must not touch shared state either
+		type badItem struct {
+			ty   int
+			wire []byte
+			want string
+		}
+		var bads []badItem
+		for _, t := range schema.Types {
+			for _, op := range t.fieldOps() {
+				if op.K != "union" || len(bads) > 60 {
+					continue
+				}
+				kop := t.fieldOps()[op.Key]
+				for n, kv := range nearMissKeys(g, schema.Tables[op.Tbl]) {
+					if n%7 != 0 {
+						continue
+					}
+					if kop.K == "scalar" {
+						kv.N &= maxOf(kop.W)
+					} else if len(kv.S) > kop.N {
+						continue
+					}
+					bad := g.msg(t.ID, true, 0)
+					bad.Fs[op.Key] = kv
+					if wire, ok := renderPinned(bad); ok {
+						bads = append(bads, badItem{t.ID, wire, goDec(t.ID, wire, BufMode{}).Class})
+					}
+				}
+			}
+		}
 		begin("")
 		workers := 16
 		loops := 3
@@ -444,6 +474,23 @@ func init() {
 					if r.Class != it.want.Class || !bytes.Equal(r.Appended, it.want.Appended) {
 						if atomic.AddInt32(&mism, 1) == 1 {
 							first.Store("enc - " + it.v.String() + "  sequential: " + trunc(it.want.Line(), 300) + "  parallel: " + trunc(r.Line(), 300) + " " + r.PanicMsg)
+						}
+					}
+				}
+			}(w)
+		}
+		wg.Wait()
+		for w := 0; w < workers; w++ {
+			wg.Add(1)
+			go func(w int) {
+				defer wg.Done()
+				for l := 0; l < loops*4; l++ {
+					for i := range bads {
+						b := bads[(i+w*5)%len(bads)]
+						if d := goDec(b.ty, b.wire, BufMode{}); d.Class != b.want {
+							if atomic.AddInt32(&mism, 1) == 1 {
+								first.Store(fmt.Sprintf("dec %d %s  sequential: %s  parallel: %s %s", b.ty, hexOf(b.wire), b.want, d.Class, d.PanicMsg))
+							}
 						}
 					}
 				}
